@@ -428,6 +428,7 @@ W_StopsAfterSuccess == ~(pc = "dead" /\ h.succAfter /\ ~h.ext /\ ~h.fired)
 W_StopsOutOfRetries == ~(pc = "dead" /\ ~h.succAfter /\ h.pdone /\ ~h.ext /\ ~h.fired /\ h.anyOut /\ cfg.retries0 > 0)
 W_StopsByKillDelayIdle == ~(pc = "dead" /\ h.fired /\ h.everL /\ ~h.lastSaw)
 W_ForcedRun == ~(pc = "sample" /\ cfg.mode = "repeatingProducer" /\ pdone /\ ~OutputSince(lastL) /\ isNew)
+W_FaultedCheck == ~(pc = "dead" /\ h.nFault > 0 /\ h.everL)     \* a check raised, later ones saw output, the engine executed
 W_WindowNotify == ~(pc = "window" /\ pdone /\ h.tN = now /\ h.lastOut2 = 2 * now)
 
 (* the observation a harness can take from the real engine whenever the monitor thread is blocked or gone *)
